@@ -29,6 +29,13 @@ def specs_for(ctx):
         dict(D=2, target="outside", box="log", noise="specified", sigma=0.2, cons="band", options=dict(max_fun_evals=70, noise_final_samples=0), seed=11),
         dict(D=3, target="abs", box="mixed", noise="auto", sigma=0.1, x0="absent", options=dict(max_fun_evals=90), seed=sd + 8),
         dict(D=1, target="plateau", box="unb", noise="det", x0="absent", options=dict(max_fun_evals=40), seed=sd + 9),
+        # low specified noise on a steep target: the (very fine) search mesh is refined around a minimum far from the origin, so many DISTINCT
+        # logged points lie within rounding distance of each other
+        dict(D=1, target="sphere", box="wide", shift=[5.3], scale=1e4, noise="specified", sigma=1e-3, options=dict(max_fun_evals=90), seed=1),
+        dict(D=1, target="sphere", box="wide", shift=[5.3], scale=1e4, noise="specified", sigma=1e-3, options=dict(max_fun_evals=90), seed=2),
+        # reported SD tiny relative to the range of the target: local GP refits fail (Cholesky) and are retried with a noise vector
+        dict(D=2, target="rosen", box="sym", noise="specified", sigma=1e-6, options=dict(max_fun_evals=50), seed=5),
+        dict(D=2, target="rosen", box="sym", noise="specified", sigma=1e-6, options=dict(max_fun_evals=50), seed=4),
     ]
     return specs + S.panel_nondefault(ctx.seed)
 
